@@ -333,6 +333,38 @@ Proof.
   rewrite Hd, Hw in H. discriminate.
 Qed.
 
+Definition is_answer (o : outcome) : bool := match o with Report _ _ _ | Nothing => true | _ => false end.
+
+(* ... nor does the probe get as far as judging a reply *)
+Lemma scan_no_answer p t_dial t_data cancel ip port s :
+  dial_connects_b t_dial (s_dial s) && s_linger s && write_succeeds_b t_data (s_write s) = false ->
+  is_answer (r_out (scan p t_dial t_data cancel ip port s)) = false.
+Proof.
+  intros H. unfold scan, write_stage, read_stage.
+  destruct (wait 0 cancel (dial_limit t_dial) (sched_due (s_dial s))) as [t0|t0|t0|] eqn:Ed; try reflexivity.
+  destruct (s_dial s) as [d [| |]|] eqn:Es; try reflexivity.
+  destruct (s_linger s) eqn:El; [|reflexivity]. cbn [negb].
+  destruct (wait t0 cancel (data_limit t_data) (sched_due (s_write s))) as [t1|t1|t1|] eqn:Ew; try reflexivity.
+  destruct (s_write s) as [dw [|]|] eqn:Esw; try reflexivity.
+  exfalso.
+  (* both waits fired: so both were in time *)
+  assert (Hd : dial_connects_b t_dial (After d DConnected) = true).
+  { cbn. cbn in Ed. unfold dial_limit in *. destruct (t_dial =? 0); [reflexivity|]. cbn.
+    destruct cancel as [tc|]; unfold wait, natural in Ed.
+    - destruct (tc <=? 0); [discriminate|].
+      destruct (Z.max 0 d <? Z.max 0 t_dial); [reflexivity|].
+      destruct (tc <? 0 + Z.max 0 t_dial); discriminate.
+    - destruct (Z.max 0 d <? Z.max 0 t_dial); [reflexivity|discriminate]. }
+  assert (Hw : write_succeeds_b t_data (After dw WOk) = true).
+  { cbn. cbn in Ew. unfold data_limit in *.
+    destruct cancel as [tc|]; unfold wait, natural in Ew.
+    - destruct (tc <=? t0); [discriminate|].
+      destruct (Z.max 0 dw <? Z.max 0 t_data); [reflexivity|].
+      destruct (tc <? t0 + Z.max 0 t_data); discriminate.
+    - destruct (Z.max 0 dw <? Z.max 0 t_data); [reflexivity|discriminate]. }
+  rewrite Hd, Hw in H. discriminate.
+Qed.
+
 (* the decision rule, all scripts, no cancellation *)
 Lemma scan_report_iff p t_dial t_data ip port s :
   let D := delivered (Z.max 0 t_data) (s_reads s) in
@@ -354,6 +386,32 @@ Proof.
     + destruct HD as [e [t [n ->]]]. cbn. apply Nat.leb_gt in EL.
       split; [discriminate|]. intros [_ [_ [_ [H _]]]]. lia.
   - pose proof (scan_no_report p t_dial t_data None ip port s E) as Hn.
+    split.
+    + intros H. rewrite H in Hn. discriminate.
+    + intros [Hd [Hl [Hw _]]]. rewrite Hd, Hl, Hw in E. discriminate.
+Qed.
+
+(* "no record, no error" happens exactly when a complete reply arrived and it is not the accepted one *)
+Lemma scan_nothing_iff p t_dial t_data ip port s :
+  let D := delivered (Z.max 0 t_data) (s_reads s) in
+  r_out (scan p t_dial t_data None ip port s) = Nothing <->
+  dial_connects t_dial (s_dial s) /\ s_linger s = true /\ write_succeeds t_data (s_write s) /\
+  (p_reply_len p <= length D)%nat /\ accepts p (firstn (p_reply_len p) D) = false.
+Proof.
+  cbv zeta. rewrite <- dial_connects_iff, <- write_succeeds_iff.
+  destruct (dial_connects_b t_dial (s_dial s) && s_linger s && write_succeeds_b t_data (s_write s)) eqn:E.
+  - apply andb_true_iff in E. destruct E as [E Hw]. apply andb_true_iff in E. destruct E as [Hd Hl].
+    rewrite (scan_closed_form p t_dial t_data ip port s Hd Hl Hw).
+    pose proof (read_full_delivered (p_reply_len p) t_data (p_reply_len p) [] (s_reads s) (t_written s) 0
+                  (Nat.le_refl _)) as HD. cbv zeta in HD.
+    destruct (p_reply_len p <=? length (delivered (Z.max 0 t_data) (s_reads s)))%nat eqn:EL.
+    + destruct HD as [t [n ->]]. cbn [app]. apply Nat.leb_le in EL.
+      destruct (accepts p (firstn (p_reply_len p) (delivered (Z.max 0 t_data) (s_reads s)))) eqn:EA; cbn.
+      * split; [discriminate|]. intros [_ [_ [_ [_ H]]]]. discriminate.
+      * split; [intros _; auto|reflexivity].
+    + destruct HD as [e [t [n ->]]]. cbn. apply Nat.leb_gt in EL.
+      split; [discriminate|]. intros [_ [_ [_ [H _]]]]. lia.
+  - pose proof (scan_no_answer p t_dial t_data None ip port s E) as Hn.
     split.
     + intros H. rewrite H in Hn. discriminate.
     + intros [Hd [Hl [Hw _]]]. rewrite Hd, Hl, Hw in E. discriminate.
